@@ -92,7 +92,7 @@ func originAllowedAtoms(rp *ReqPath) bool {
 
 func checkC03(ctx *Ctx) *Result {
 	r := newResult("C03")
-	r.Explanation = "Decided for every request and every configuration: each execution of the middleware follows exactly one of the enumerated paths of the loop-free request closure (callees inlined); on each path the rule inspects which response headers are written, in which order, with which operation, with a value of which provenance, and under which branch conditions. Decided: at most one ACAO value, ACAO is the request's own first Origin value (only after Parse and Contains succeeded) or the constant * (only under the allow-all atom, never next to credentials), ACAC is the constant true only next to an echoed origin under the credentialed atom, no Access-Control-* header without the allowed-origin atoms, preflight-only headers only on handler-free paths, ACEH only on handler paths, ACMA/ACEH carry the configured fields."
+	r.Explanation = "Decided for every request and every configuration: each execution of the middleware follows exactly one of the enumerated paths of the loop-free request closure (callees inlined); on each path the rule inspects which response headers are written, in which order, with which operation, with a value of which provenance, and under which branch conditions. Decided: at most one ACAO value, ACAO is the request's own first Origin value (only after Parse and Contains succeeded) or the constant * (only under the allow-all atom, never next to credentials), ACAC is the constant true only next to an echoed origin under the credentialed atom, no Access-Control-* header without the allowed-origin atoms, preflight-only headers only on handler-free paths, ACEH only on handler paths, ACMA/ACEH carry the configured fields; (R3.7) the key under which the request's host is looked up stands for one host text only: the request-side host lexer returns exactly the bytes it consumed, or shows that a key it obtained by dropping the brackets contains `:` (known finding: it does not)."
 	r.NotDecided = "the meaning of origins.Parse / Tree.Contains (C01) and net/http's map semantics are axioms; what a user-supplied ResponseWriter does is outside the claim"
 	r.Trusted = trustedRequestPath
 	rt, ok := requestTableGuards(ctx, r)
@@ -103,6 +103,7 @@ func checkC03(ctx *Ctx) *Result {
 	r.rule("R3.2", "ACAO=* only under the allow-all atom with credentials excluded (atom or CI-1); ACAO=echo only under Parse.ok ∧ Contains", 50)
 	r.rule("R3.3", "ACAC is the constant true, only next to an echoed origin, only under the credentialed atom, never next to *", 20)
 	r.rule("R3.4", "no Access-Control-* header on a path without the allowed-origin atoms", 50)
+	r.rule("R3.7", "the host key determines the host text: every accepting path of the request-side host lexer returns exactly the bytes it consumed, or — where it drops bytes (the brackets of an IP literal) — has established that the key contains a byte no bare host can contain (`:`), so that `[x]` and `x` are never looked up under the same key", 2)
 	r.rule("R3.5", "ACAM/ACAH/ACAPN/ACMA only on handler-free paths, ACEH only on handler paths; ACMA carries cfg.acma, ACEH cfg.aceh", 50)
 
 	ci1 := ctx.CI1()
@@ -225,6 +226,9 @@ func checkC03(ctx *Ctx) *Result {
 	checkFirst(ctx, r)
 	// "preflight responses" are the handler-free paths: which requests take them
 	r.share(checkC11(ctx), map[string]string{"R11.2": "handler-free paths ⇔ OPTIONS ∧ found(Origin) ∧ found(ACRM) on a configured middleware, the method compared byte for byte (what this property calls a preflight response is what the middleware answers itself)"}, nil)
+	// "the byte-exact first Origin value of an allowed origin": the key looked
+	// up in the tree must stand for one host text only
+	hostKeyInjective(ctx, r, "R3.7")
 	// "allowed origin" rests on the origin tree: its structural necessary conditions
 	treeRules(ctx, r)
 	// "Max-Age carries exactly the configured value": what cfg.acma holds is
@@ -308,4 +312,56 @@ func checkFirst(ctx *Ctx, r *Result) {
 		good, detail = false, fmt.Sprintf("%d paths return found=true, expected 1", foundPaths)
 	}
 	r.check(good, "R3.1", "headers.First", ctx.P.Pos(fn.Pos()), detail, len(paths))
+}
+
+// hostKeyInjective implements R3.7 on the path summaries of fastParseHost.
+func hostKeyInjective(ctx *Ctx, r *Result, rule string) {
+	p := ctx.P
+	fh := p.Func(pkgOrigins, "fastParseHost")
+	if fh == nil {
+		r.undecided(rule, "fastParseHost", "anchor not found")
+		return
+	}
+	ps := p.NewExec(nil).Summarize(fh)
+	nAcc := 0
+	verbatimBad, bracketBad := "", ""
+	nBracket := 0
+	for _, pa := range ps {
+		if pa.End != "return" || len(pa.Rets) != 3 || !pa.Rets[2].IsConst("true") {
+			continue
+		}
+		nAcc++
+		v := fieldOf(pa.Rets[0], "Value")
+		rest := pa.Rets[1]
+		// verbatim: value = str[:n] (from the start), remainder = str[n:]
+		if v.Op == "slice" && len(v.Args) >= 3 && v.Args[0].Key() == "param:str" && (v.Args[1].Key() == "_" || v.Args[1].IsConst("0")) &&
+			rest.Op == "slice" && len(rest.Args) >= 3 && rest.Args[0].Key() == "param:str" && rest.Args[1].Key() == v.Args[2].Key() && rest.Args[2].Key() == "_" {
+			continue
+		}
+		if v.Key() == "param:str" && rest.IsConst(`""`) {
+			continue
+		}
+		// bytes are dropped: the key must carry a byte bare hosts cannot contain
+		nBracket++
+		k := v.Key()
+		colon := pa.Val("bin:==(call:strings.IndexByte("+k+", 58), -1)") == -1 ||
+			pa.Val("bin:<(call:strings.IndexByte("+k+", 58), 0)") == -1 ||
+			pa.Val("bin:<(-1, call:strings.IndexByte("+k+", 58))") == 1 ||
+			pa.Val(`call:strings.Contains(`+k+`, ":")`) == 1 ||
+			pa.Val(`call:strings.ContainsRune(`+k+`, 58)`) == 1 ||
+			pa.Val(`call:strings.ContainsAny(`+k+`, ":")`) == 1
+		if !colon {
+			if !isSubstringOf(v, "param:str") {
+				verbatimBad = "the host value is not a substring of the input: " + k
+			} else {
+				bracketBad = "the lexer returns " + k + " with remainder " + rest.Key() + ": bytes of the input are dropped from the key (the brackets), and nothing on the path shows that the key contains `:` — `[example.com]` and `[127.0.0.1]` are looked up under the keys of `example.com` and `127.0.0.1`, so an Origin with a bracketed non-IPv6 host is treated as the allowed origin whose host it encloses"
+			}
+		}
+	}
+	if nAcc == 0 {
+		r.undecided(rule, "fastParseHost", "no accepting path")
+		return
+	}
+	r.check(verbatimBad == "", rule, "fastParseHost: bare host returned verbatim", p.Pos(fh.Pos()), verbatimBad, nAcc)
+	r.check(bracketBad == "", rule, "fastParseHost: bracketed host never shares its key with a bare host", p.Pos(fh.Pos()), bracketBad, nBracket+1)
 }
